@@ -20,6 +20,9 @@ CHECKS = {
     "C05": dict(level=MC, design="5/C05", technique="TLA+ register-machine spec with free receiver/operand registers (all aliasing patterns) model-checked with TLC; behaviours replayed on real objects with identity, value and non-interference checks after every step",
                 text="All programs of length 2 over 2 scalar + 3 point registers from 4 pools with every aliasing pattern (exhaustive in the model, sampled per group in the quick tier) and simulated programs of length 6 are replayed on every group instance: returned object is the receiver, receiver holds the specified value, no other register's encoding changes, clones stay independent.",
                 note="trusted: TLC, canonical route, Clone used for snapshots (itself one of the checked operations)"),
+    "C06": dict(level=MC, design="5/C06", technique="three-sorted TLA+ spec (KyberPairing: G1, G2, GT as bilinear forms) model-checked with TLC; behaviours replayed on the five pairing suites",
+                text="TLC checks bilinearity, additivity, identity and non-degeneracy on the bilinear-form model and generates all behaviours (operand classes incl. identity and generators, two pairings or GT operations, ValidatePairing) without pre-ops exhaustively and with arithmetic pre-ops by simulation; each pairing result must equal the form evaluated over four atom pairings by GT double-and-add, and ValidatePairing must equal equality of the forms.",
+                note="trusted: TLC, GT double-and-add over the library's GT Add, the four atom pairings per binding; operands are small Laurent combinations of atoms under edge-biased bindings"),
 }
 
 NOT_YET = {
